@@ -40,10 +40,15 @@ func checkC06(p *Prog, r *Report) {
 	// ownership survives the import: the importer consumes every exported field, in particular the current Owner
 	if pimp := p.Func(Rel("x/pnft"), "InitGenesis"); pimp != nil {
 		checkPnftImportReadsAllFields(p, r, func(rule, rest string) string { return rule + ":C06:" + rest }, pimp)
+		// … for every listed denom and token: one that the import skips has no owner afterwards, and its id can be minted again
+		checkUnconditionalLoopEffectByCallee(p, r, "LOOP:C06:x/pnft.InitGenesis#every-denom-imported", pimp, "SaveDenom")
+		checkUnconditionalLoopEffectByCallee(p, r, "LOOP:C06:x/pnft.InitGenesis#every-pnft-imported", pimp, "")
 	}
 	// the owner every view (and therefore the genesis export, which is imported back as the ownership) reports is the stored
 	// owner record of that very token
 	pnftViewsAgree(p, r, func(rule, rest string) string { return rule + ":C06:" + rest })
+	// two (denom, id) pairs never share an owner record: identifiers exclude x/nft's key delimiter
+	checkPnftIdsExcludeDelimiter(p, r, func(rule, rest string) string { return rule + ":C06:" + rest })
 	checkSignBytesBindMessage(p, r, "C06", "x/pnft")
 	checkInitGenesisCallers(p, r, "C06", "x/pnft")
 	wireKeyOwnership(p, r, BuildWire(p), "C06", "pnft", []string{"x/pnft/keeper.NewKeeper"}, "denoms, tokens and their owners")
